@@ -513,6 +513,36 @@ func rC10CopyOptions(w *World, r *Report) {
 			continue
 		}
 		loop := naturalLoop(h)
+		// the descent happens on every call: no path from the entry to a return avoids the loop over the children
+		// (a flag that switches the descent off - "only refresh one level" - leaves the commands below the siblings
+		// without the options declared since they were created); returning early for a node without children is fine
+		noChildren := func(term ssa.Instruction, k int) bool {
+			iff, isIf := term.(*ssa.If)
+			if !isIf {
+				return true
+			}
+			for _, f := range condFacts(iff.Cond, k == 0, iff) {
+				if f.Y == nil {
+					continue
+				}
+				if lc, ok := lenOf(f.X); ok {
+					if _, isCC := loadOfFieldNamed(lc, "ChildCommands"); isCC {
+						if k0, ok := constInt(f.Y); ok && ((f.Op == token.EQL && k0 == 0) || (f.Op == token.LEQ && k0 == 0) || (f.Op == token.LSS && k0 == 1)) {
+							return false
+						}
+					}
+				}
+			}
+			return true
+		}
+		avoid := ig.reachFromE([]int{0}, func(in ssa.Instruction) bool { return in == h.Instrs[0] }, noChildren)
+		always := true
+		for i, sn := range avoid {
+			if _, isRet := ig.instrs[i].(*ssa.Return); isRet && sn {
+				always = false
+			}
+		}
+		ru.Check(always, "copy/recursive/unconditional", w.IPos(c), "every call descends into the children", "the descent into the children can be switched off (a flag, an early return): after `NewCommand` the commands below the siblings miss the options declared since they were created")
 		var starts []int
 		for _, s := range h.Succs {
 			if loop[s] {
@@ -722,8 +752,47 @@ func findGate(w *World, fn *ssa.Function) *gateInfo {
 			}
 		}
 	}
-	// error edge returns non-nil wrapping ErrorParsing with %w
 	ig := buildIG(fn)
+	// a gate function answers nil only after the scan: no flag or shortcut lets it skip the node's table (other than
+	// the table being empty). A "this node declares nothing required" marker is wrong for inherited options.
+	if _, isParam := g.node.(*ssa.Parameter); isParam {
+		var hdr *ssa.BasicBlock
+		for _, b := range fn.Blocks {
+			if b.Dominates(g.check.Block()) && naturalLoop(b)[g.check.Block()] && len(naturalLoop(b)) > 1 {
+				if hdr == nil || hdr.Dominates(b) {
+					hdr = b
+				}
+			}
+		}
+		if hdr != nil {
+			emptyTable := func(term ssa.Instruction, k int) bool {
+				iff, isIf := term.(*ssa.If)
+				if !isIf {
+					return true
+				}
+				for _, f := range condFacts(iff.Cond, k == 0, iff) {
+					if f.Y == nil {
+						continue
+					}
+					if lc, ok := lenOf(f.X); ok {
+						if _, isCO := loadOfField(lc, fCO); isCO {
+							if k0, ok := constInt(f.Y); ok && ((f.Op == token.EQL && k0 == 0) || (f.Op == token.LEQ && k0 == 0) || (f.Op == token.LSS && k0 == 1)) {
+								return false
+							}
+						}
+					}
+				}
+				return true
+			}
+			seen := ig.reachFromE([]int{0}, func(in ssa.Instruction) bool { return in == hdr.Instrs[0] }, emptyTable)
+			for i, sn := range seen {
+				if ret, ok := ig.instrs[i].(*ssa.Return); ok && sn && len(ret.Results) > 0 && isNilConst(ret.Results[len(ret.Results)-1]) {
+					g.problem = "the gate can answer nil without scanning the node's options (at " + w.IPos(ret) + "): options the node inherited, or that were made required later, are not enforced"
+				}
+			}
+		}
+	}
+	// error edge returns non-nil wrapping ErrorParsing with %w
 	var errIf *ssa.If
 	errK := 0
 	for _, ref := range *g.check.Referrers() {
